@@ -22,6 +22,7 @@ func c14(r *core.Report) {
 	c14Retain(r)
 	c14Implicit(r)
 	c14Status(r)
+	c14Informational(r)
 	mw := p.SSAFuncOf("openapi3filter", "Validator.Middleware")
 	if len(mw.AnonFuncs) != 1 {
 		core.Fail("Validator.Middleware has %d closures, expected 1", len(mw.AnonFuncs))
@@ -329,12 +330,31 @@ func c14(r *core.Report) {
 
 	r.RunRule("C14.warn", "non-strict mode passes the handler's output through: warnResponseWrapper.WriteHeader calls the wrapped writer's WriteHeader on every path, Write writes to the tee on every path, and the tee's first sink is the wrapped writer", 3, func() {
 		wh := p.SSAFuncOf("openapi3filter", "warnResponseWrapper.WriteHeader")
-		ok1 := false
+		// every return is dominated by a forwarding call (there may be several, on disjoint paths)
+		var fwd []*ssa.BasicBlock
 		for _, s := range callSites(wh) {
 			if invokeName(s) == "WriteHeader" {
-				if _, f := loadedField(s.Common().Value); f == "w" && dominatesAllReturns(s.Block(), wh) {
-					ok1 = true
+				if _, f := loadedField(s.Common().Value); f == "w" {
+					fwd = append(fwd, s.Block())
 				}
+			}
+		}
+		ok1 := len(fwd) > 0
+		for _, b := range wh.Blocks {
+			if len(b.Instrs) == 0 {
+				continue
+			}
+			if _, isRet := b.Instrs[len(b.Instrs)-1].(*ssa.Return); !isRet {
+				continue
+			}
+			covered := false
+			for _, fb := range fwd {
+				if fb.Dominates(b) {
+					covered = true
+				}
+			}
+			if !covered {
+				ok1 = false
 			}
 		}
 		r.Check(ok1, "warn:WriteHeader", p.Pos(wh.Pos()), "forwards on every path", "warnResponseWrapper.WriteHeader does not forward to the wrapped writer on every path")
@@ -734,6 +754,55 @@ func c14Status(r *core.Report) {
 					r.OK(key, p.Pos(c.Pos()), good)
 				} else {
 					r.Bad(key, p.Pos(c.Pos()), fmt.Sprintf("%s hands %s to the wrapped writer's WriteHeader: when the handler returned without writing anything that value is 0, and net/http panics with `invalid WriteHeader code 0` (the response should be the implicit 200)", fname, core.ExprStr(arg)))
+				}
+				return true
+			})
+		}
+	})
+}
+
+// c14Informational: a 1xx code is not the status of the response. net/http sends 100-199 (except
+// 101) ahead of the response and lets the handler call WriteHeader again; a wrapper that records
+// the first call as "the" status validates and answers under 103 instead of the 201 that follows.
+func c14Informational(r *core.Report) {
+	p := r.Prog
+	info := p.Pkg("openapi3filter").TypesInfo
+	r.RunRule("C14.informational", "an informational status is not recorded as the response's status: in every WriteHeader method of openapi3filter that stores its parameter into a field of the receiver, the store is reached only where a condition on that parameter (a range test, or a predicate applied to it) excluded the 1xx codes", 2, func() {
+		for _, d := range p.AllDecls("openapi3filter") {
+			if d.Recv == nil || d.Body == nil || d.Name.Name != "WriteHeader" || d.Type.Params.NumFields() != 1 || len(d.Type.Params.List[0].Names) != 1 {
+				continue
+			}
+			prm := info.ObjectOf(d.Type.Params.List[0].Names[0])
+			k := 0
+			ast.Inspect(d.Body, func(n ast.Node) bool {
+				as, ok := n.(*ast.AssignStmt)
+				if !ok {
+					return true
+				}
+				for i, l := range as.Lhs {
+					if _, isSel := ast.Unparen(l).(*ast.SelectorExpr); !isSel || i >= len(as.Rhs) {
+						continue
+					}
+					id, ok := ast.Unparen(as.Rhs[i]).(*ast.Ident)
+					if !ok || info.ObjectOf(id) != prm {
+						continue
+					}
+					k++
+					key := fmt.Sprintf("informational:%s#%d", core.FuncName(d), k)
+					tested := false
+					for _, a := range core.Atoms(core.GuardsAt(info, d.Body, as)) {
+						ast.Inspect(a.Expr, func(m ast.Node) bool {
+							if x, ok := m.(*ast.Ident); ok && info.ObjectOf(x) == prm {
+								tested = true
+							}
+							return true
+						})
+					}
+					if tested {
+						r.OK(key, p.Pos(as.Pos()), "recorded only after the code was tested")
+					} else {
+						r.Bad(key, p.Pos(as.Pos()), fmt.Sprintf("%s records whatever code the first call passes: after WriteHeader(103) the final WriteHeader(201) is ignored, the response is validated under status 103 (usually undeclared, so anything passes) and the client is answered with the wrong status", core.FuncName(d)))
+					}
 				}
 				return true
 			})
